@@ -16,6 +16,16 @@ from . import common, gen, pertable, _mk
 PID = 'C15'
 
 
+def _tabguard(get):
+    def deco(fn):
+        def case(mdl, what):
+            objs, props, cells = get()
+            return {'kind': f'table:{PID}', 'objects': list(objs), 'properties': list(props),
+                    'table': harness.table_from_model(mdl, cells), 'what': what}
+        return common.guarded(fn, case)
+    return deco
+
+
 def units(tier, seed):
     t = _mk.QUICK_TABLES if tier == 'quick' else _mk.THOROUGH_TABLES
     us = gen.kernel_units(set(t) | {(m, n) for n, m in t} | {(n + 1, m) for n, m in t} | {(n, m + 1) for n, m in t})
@@ -25,10 +35,12 @@ def units(tier, seed):
         for tr in ('rows', 'cols', 'transpose', 'duprow', 'dupcol'):
             us.append({'name': f'relational {tr} {n}x{m}', 'fn': 'unit_rel', 'args': {'n': n, 'm': m, 'tr': tr},
                        'split': 6 if n * m >= 9 else 0})
+    us += _mk.inductive_units(tier) + _mk.skeleton_units(tier, seed, extra={'pad': 1})
     return _mk.order(us)
 
 
 unit_kernel = _mk.kernel_unit_for(PID)
+unit_inductive = _mk.inductive_unit_for(PID)
 
 
 def unit_table(args, prefix=(), max_depth=None):
@@ -54,7 +66,7 @@ def unit_rel(args, prefix=(), max_depth=None):
             acc = acc | z3.If(z3.Extract(i, i, x) == 1, z3.BitVecVal(1 << perm[i], core.W), z3.BitVecVal(0, core.W))
         return acc
 
-    @common.guarded
+    @_tabguard(lambda: (objs, props, cells))
     def body():
         cx = core.ctx()
         out = {'cex': [], 'queries': 0}
